@@ -6,10 +6,14 @@
 //                                          harness prints sum() and checks every other accessor (avg, average, total, var, stdev,
 //                                          standard_deviation, span, default ddof, serialize + initializing constructor round trip)
 //   type names: u8 i8 u16 i16 u32 i32 u64 (unsigned long) i64 (long) ull (unsigned long long) ll (long long)
+//   aggk <ops>                             Aggregate<double> with the additional op K,i,c,v: x_i = Aggregate(c, v, 0, v, v) (c copies of v)
+//   sgnf v1 v2 ...                         sgn<double>, sgn<float>, sgn<long double> (nan, -0 accepted)
+//   sweep16 <alo> <ahi>                    all pairs (a, b), a in [alo, ahi] as uint16_t and a - 32768 as int16_t, of abs_diff / div_ceil / round_up
 //   sweep32 <start> <stride> <count>      harness-internal sweep of the 32-bit entry points against naive bit-loop
 //                                          references (prints "SWEEP ok ..." or "SWEEP FAIL ...")
 // Inputs on which the C++ code would have undefined behaviour (signed overflow, endless loop) are not executed:
 // the harness prints NA by the predicates documented in coq/C20/Run.v (decided here independently).
+#include <algorithm>
 #include <cmath>
 #include <cstdint>
 #include <cstddef>
@@ -345,6 +349,12 @@ static void run_agg(const std::vector<std::string>& toks)
         else if (f[0] == "P") { A r = x[std::stoi(f[2])] + x[std::stoi(f[3])]; x[std::stoi(f[1])] = r; }
         else if (f[0] == "PA") { A& r = (x[std::stoi(f[1])] += x[std::stoi(f[2])]); (void)r; }
         else if (f[0] == "R") x[std::stoi(f[1])] = A();
+        else if (f[0] == "K") {
+            // the Aggregate of c copies of the value v, through the public initializing constructor (what
+            // deserialisation produces): count c, mean v, nvar 0, min = max = v
+            T v = parse_val<T>(f[3]);
+            x[std::stoi(f[1])] = A(static_cast<size_t>(std::stoull(f[2])), static_cast<double>(v), 0.0, v, v);
+        }
     }
     for (int i = 0; i < 3; ++i) {
         A& a = x[i];
@@ -456,6 +466,47 @@ static void sweep32(ull start, ull stride, ull count)
     out = b;
 }
 
+// ---------------------------------------------------------------- sgn of floating-point values (same template, outside the integer property)
+static void run_sgnf(const std::vector<std::string>& tok)
+{
+    for (size_t i = 1; i < tok.size(); ++i) {
+        double v = tok[i] == "nan" ? std::nan("") : (tok[i] == "-0" ? -0.0 : parse_q(tok[i]));
+        put(tlx::sgn<double>(v)); put(tlx::sgn<float>(static_cast<float>(v))); put(tlx::sgn<long double>(static_cast<long double>(v)));
+    }
+}
+
+// ---------------------------------------------------------------- all pairs of 16-bit values (thorough tier)
+template <typename T>
+static bool sweep16_type(long alo, long ahi, const char* tname, ull& count)
+{
+    const long lo = std::numeric_limits<T>::min(), hi = std::numeric_limits<T>::max();
+    for (long a = std::max(alo, lo); a <= std::min(ahi, hi); ++a) {
+        for (long b = lo; b <= hi; ++b) {
+            T x = static_cast<T>(a), y = static_cast<T>(b);
+            long d = a > b ? a - b : b - a;
+            if (static_cast<long>(static_cast<T>(d)) == d && static_cast<long>(tlx::abs_diff<T>(x, y)) != d) {
+                char m[200]; snprintf(m, sizeof m, "SWEEP FAIL abs_diff<%s>(%ld,%ld) got=%ld want=%ld", tname, a, b, (long)tlx::abs_diff<T>(x, y), d); out = m; return false; }
+            if (b >= 1) {
+                long q = a >= 0 ? (a + b - 1) / b : -((-a) / b);
+                if (static_cast<long>(tlx::div_ceil(x, y)) != q) {
+                    char m[200]; snprintf(m, sizeof m, "SWEEP FAIL div_ceil<%s>(%ld,%ld) got=%ld want=%ld", tname, a, b, (long)tlx::div_ceil(x, y), q); out = m; return false; }
+                if (static_cast<long>(tlx::round_up(x, y)) != q * b) {
+                    char m[200]; snprintf(m, sizeof m, "SWEEP FAIL round_up<%s>(%ld,%ld) got=%ld want=%ld", tname, a, b, (long)tlx::round_up(x, y), q * b); out = m; return false; }
+            }
+            ++count;
+        }
+    }
+    return true;
+}
+static void sweep16(long alo, long ahi)
+{
+    ull count = 0;
+    if (!sweep16_type<std::uint16_t>(alo, ahi, "u16", count)) return;
+    if (!sweep16_type<std::int16_t>(alo - 32768, ahi - 32768, "i16", count)) return;
+    char b[200]; snprintf(b, sizeof b, "SWEEP ok count=%llu nontrivial=%llu", count, count / 2);
+    out = b;
+}
+
 int main(int argc, char** argv)
 {
     if (argc < 2) return 2;
@@ -491,7 +542,9 @@ int main(int argc, char** argv)
             }
         }
         else if (tok[0] == "prange" && tok.size() >= 2) run_prange(tok);
-        else if (tok[0] == "agg") run_agg<double>(tok);
+        else if (tok[0] == "sgnf") run_sgnf(tok);
+        else if (tok[0] == "sweep16" && tok.size() == 3) sweep16(std::stol(tok[1]), std::stol(tok[2]));
+        else if (tok[0] == "agg" || tok[0] == "aggk") run_agg<double>(tok);
         else if (tok[0] == "aggf") run_agg<float>(tok);
         else if (tok[0] == "aggi") run_agg<int>(tok);
         else if (tok[0] == "aggz") run_agg<size_t>(tok);
